@@ -15,9 +15,13 @@ LEVEL = "proof"
 COQ_TIMEOUT = 1500
 TRUSTED = [
     "Model/SrcLife.v is hand-written (phases of _dispatch_source_invoke2 cut at its reads of dq_atomic_flags and at the callouts, "
-    "_dispatch_source_wakeup, cancel, cancel_and_wait, event delivery); tied by (a) the generated rmw bodies of Gen_srclife "
-    "(interface lemmas over every 32-bit word), (b) per-thread conformance of every recorded trace of dq_atomic_flags events "
-    "+ callout marks against SrcLife.mon_step inside Coq, (c) the API-level oracle on the same stress runs",
+    "_dispatch_source_wakeup, cancel, cancel_and_wait, event delivery in two halves); tied by (a) the generated rmw bodies of "
+    "Gen_srclife on dq_atomic_flags (interface lemmas over every 32-bit word, C16_*_is_source), (b) the generated atomic-site lists "
+    "of _dispatch_source_invoke2 (43 sites cut into the model's program points), _dispatch_source_wakeup, dispatch_source_cancel, "
+    "dispatch_source_cancel_and_wait, finalize_unregistration and refs_unregister (C16_sites_match_source), (c) per-thread conformance "
+    "of every recorded trace of dq_atomic_flags events + callout marks against SrcLife.mon_step inside Coq; the monitor accepts every "
+    "step of the model (C16_monitor_accepts_model), the converse is not claimed, (d) the replay of every recorded round on "
+    "SrcLife.gstep (C16_replay_reach, C16_inv_b_sound), (e) the API-level oracle on the same stress runs",
     "the theorems are invariants of every reachable state of SrcLife.gstep (any number of threads, any interleaving of cancel / "
     "cancel_and_wait / events / hang-up / release / activation / invoke phases); what they do not cover: that the lane layer "
     "performs the invokes _dispatch_source_wakeup asks for (C01) and that the kernel delivers events (liveness)",
